@@ -166,12 +166,24 @@ CLAIMED["C11"] = {
     "design_ref": "DESIGN.md §5 C11 / C12, §11.2",
 }
 
+CLAIMED["C12"] = {
+    "category": "exploration",
+    "text": "BOUNDED only (labelled; nothing here is counted as proved), for the same reason as C11: the property is about text handed back to the generated parser. On a stated corpus of about 135 source models (right-nested - and /, "
+            "negative constants under unary minus, coefficients from 1e-9 to 1e9 of either sign, abs / min / max rows with $-auxiliaries, every logic connective, named / duplicate-named / unnamed rows, offsets, all domain kinds, indexed names) "
+            "the real renderers are checked: the rendering of the compiled model and of the linear model is accepted, compiles to the same objective, rows, right-hand sides and offset, variable domains of the same kind whose re-derived ranges lie inside the original ones, "
+            "and rendering a recompiled linear model is a fixed point. Four genuine defects were found this way and repaired (fix: commits): lost parentheses in the model rendering, lost sign of tiny coefficients / offsets, "
+            "'solve 1' / 'solve 0 + 1' for feasibility objectives, '-0' bounds.",
+    "note": "Bound: the corpus in units/U12.out/witness.rs. Domains are compared up to tightening: re-compiling a rendered model runs bound inference on already simplified rows and may derive a smaller (still sound) range; "
+            "this is reported in DESIGN.md as an observation, not as a finding. Trusted: the parser.",
+    "technique": "bounded executable check of render -> parse -> compile -> render on the real Display implementations (stand-in where no contract can reach; labelled bounded)",
+    "design_ref": "DESIGN.md §5 C11 / C12, §11.2",
+}
+
 NOT_APPLICABLE = {
     "C03": "quantifies over source texts through the pest-generated parser and an external MILP search; every in-repo step that can carry a contract is covered by C01/C02/C04/C05; no further function exists to attach an obligation to",
     "C06": "relates two parses; the expansion engine works on parser IL with dyn Fn callbacks, scope frames and evaluated iterables that Verus does not accept and Kani cannot execute; its specification would be a formal semantics of the whole language",
     "C09": "the operator table is data handed to pest's PrattParser and tokens come from macro-generated grammar code; neither verifier can take that code, and assuming the library implements precedence climbing would assume the property",
     "C17": "the export is text read by an independent reader; a contract would need a formal LP-format reader and a string theory for format!/push_str output; Kani cannot execute float formatting",
     "C20": "sensitivities are computed inside clarabel/good_lp; rooc only forwards them by name, so no contract on repository code decides the sign convention",
-    "C12": PENDING,
 
 }
